@@ -124,3 +124,23 @@ def replay_c18(prop, path):
 import checks_locks
 CHECKS["C18"] = checks_locks.run_check
 REPLAY["C18"] = replay_c18
+
+
+def replay_wire(prop, path):
+    import checks_wire
+    r = json.load(open(path))
+    vh = build_vh()
+    got, _ = checks_wire.confirm_fn(vh)(r["case"])
+    if got:
+        print("VIOLATION property=%s replay=%s" % (prop, path))
+        print("  " + json.dumps(got[0])[:600])
+        return 1
+    print("replay: the recorded mismatch does not occur on this tree")
+    return 0
+
+
+import checks_wire
+CHECKS["C12"] = checks_wire.run_c12
+CHECKS["C19"] = checks_wire.run_c19
+REPLAY["C12"] = replay_wire
+REPLAY["C19"] = replay_wire
